@@ -1793,7 +1793,7 @@ func init() {
 	mc.Register(&mc.Prop{
 		ID:    "C04",
 		Level: "exploration",
-		Rule: cliStreamRule[1:] + " " + "bounded-exhaustive enumeration, every case on a fresh alignment (and, for all 1x4 and 2x3 [thorough: 2x4] alignments, the window/list/complement/trimming/reference-coordinate cases also on an object that was first the same rows rotated by one column, resp. reversed, answered every coordinate query in that state and was edited in place residue by residue), results compared (names, row order, residues, Length()) with column picking on the model rows; alignments are all n-row alignments of the given lengths over {A,C,-} (rows named a,b,c); integer arguments range over every value of [-1, L+1] (windows also with lengths at and near the largest and smallest integer); Transpose / DiffWithFirst also on rows of 3 bytes built from {A, C, U+00E9}. " +
+		Rule: cliStreamRule[1:] + "(Free-running complement under the race detector: 8 goroutines doing this property's operations on objects of their own must get the values the same work gives alone.)  " + "bounded-exhaustive enumeration, every case on a fresh alignment (and, for all 1x4 and 2x3 [thorough: 2x4] alignments, the window/list/complement/trimming/reference-coordinate cases also on an object that was first the same rows rotated by one column, resp. reversed, answered every coordinate query in that state and was edited in place residue by residue), results compared (names, row order, residues, Length()) with column picking on the model rows; alignments are all n-row alignments of the given lengths over {A,C,-} (rows named a,b,c); integer arguments range over every value of [-1, L+1] (windows also with lengths at and near the largest and smallest integer); Transpose / DiffWithFirst also on rows of 3 bytes built from {A, C, U+00E9}. " +
 			"(iv) n=1 L=0..4, n=2 L=0..4, n=3 L=0..3 (thorough: n=1 L<=6, n=2 L<=5, n=3 L<=4): SubAlign and InverseCoordinates for all (start,length) in [-1,L+1]^2 (the inverse windows also extracted and concatenated as subseq --reverse does, followed by a further extraction from the same alignment); SubAlign(0,k) ++ SubAlign(k,L-k) for k=0..L; TrimSequences for all sizes x both ends; SelectSites and InversePositions for all site lists of length 1..3 (n=3: 1..2) over [-1,L+1], repeats and any order. " +
 			"(v) same alignments with L>=1, every row and one unknown name as reference: RefCoordinates for all (start,length) in [-1,L+1]^2, followed by SubAlign of the returned window; RefSites for the same site lists. " +
 			"(vi) Split: n=1 L=1..6, n=2 L=1..4, n=3 L=1..2 (thorough: n=3 L=3, and n=2 L=5..6 over {A,-}) x every map of the L sites onto exactly 1, 2 or 3 blocks x 5 ways of building the PartitionSet (AddRange with runs; with greedy arithmetic progressions a-b/k, end on the last site; the same with the end extended to just before the next multiple; String() of the first re-parsed by io/partition; a partition file with the modulo forms parsed by io/partition), plus every 2-block map of L+1 sites (must be refused). " +
@@ -1812,6 +1812,8 @@ func init() {
 			"Transpose replaces names by indices (documented example), so transposing twice is compared on residues only; L = 0 is not transposed",
 			"commands: docs/commands/subseq.md says a length running past the end 'will stop at the end of the alignment' while the statement asks for an error: for start inside and start+length > L both an error and the truncated window are accepted; every other out-of-range argument must make the command fail",
 		},
+		// free-running complement: goroutines that each own their objects must get what they get alone (harness/racepass)
+		Post:  func(m *mc.Master) { m.RacePass("own-extract") },
 		Tasks: func(tier string) []mc.Task { return append(c04Tasks(tier), cliStreamTasks("C04")...) },
 		Replay: func(c *mc.Ctx, payload json.RawMessage) {
 			if cliStreamReplay(c, payload) {
